@@ -40,6 +40,12 @@ ALLOWED_AXIOMS = {
     'Classical_Prop.classic', 'Eqdep.Eq_rect_eq.eq_rect_eq', 'JMeq.JMeq_eq',
     'ProofIrrelevance.proof_irrelevance',
 }
+# the same axioms as coqchk names them (module path spelled out)
+ALLOWED_AXIOMS_CHK = {
+    'Coq.Reals.ClassicalDedekindReals.sig_forall_dec', 'Coq.Reals.ClassicalDedekindReals.sig_not_dec',
+    'Coq.Logic.FunctionalExtensionality.functional_extensionality_dep', 'Coq.Logic.Classical_Prop.classic',
+    'Coq.Logic.Eqdep.Eq_rect_eq.eq_rect_eq', 'Coq.Logic.JMeq.JMeq_eq', 'Coq.Logic.ProofIrrelevance.proof_irrelevance',
+}
 COMMON_GEN = [('Gen/Unicode.v', 'unicode_tables')]
 
 def log(*a):
@@ -304,6 +310,22 @@ def finding_cases(pid, fid):
     d = json.load(open(p))
     return d.get('cases', [])
 
+# ---------------------------------------------------------------- per-case timeout
+import signal
+class CaseTimeout(Exception):
+    pass
+def _alarm(signum, frame):
+    raise CaseTimeout()
+def call_with_timeout(fn, arg, seconds):
+    """run fn(arg) in the main thread under SIGALRM: a change that makes the implementation loop forever
+    must end in a report, not in a hanging check"""
+    old = signal.signal(signal.SIGALRM, _alarm)
+    signal.alarm(max(1, int(seconds)))
+    try:
+        return fn(arg)
+    finally:
+        signal.alarm(0); signal.signal(signal.SIGALRM, old)
+
 # ---------------------------------------------------------------- main
 
 def jsonable(x):
@@ -338,6 +360,17 @@ def run_check(pid, tier, seed):
         b = build_coq(plugin, timeout=int(os.environ.get('VERIF_COQ_TIMEOUT', '2400')))
         gate = grep_gate()
         exe, exerr = build_driver(plugin)
+        if tier == 'thorough' and b['ok'] and not gate and not os.environ.get('VERIF_NO_COQCHK'):
+            mods = ' '.join('OV.' + t[:-2].replace('/', '.') for t in getattr(plugin, 'THEOREM_FILES', ['Properties/%s.v' % pid]))
+            rc_chk, out_chk = sh('timeout 3000 coqchk -o -silent -Q . OV %s 2>&1' % mods, cwd=COQ, timeout=3100)
+            m_ax = re.search(r'\* Axioms:(.*?)\n\s*\n\* Constants', out_chk, re.S)
+            chk_axioms = [a.strip() for a in (m_ax.group(1) if m_ax else '?').split('\n') if a.strip()]
+            cov['coqchk'] = {'cmd': 'coqchk -o -silent -Q . OV ' + mods, 'exit': rc_chk, 'axioms': chk_axioms,
+                             'type_in_type': 'type-in-type: <none>' in out_chk, 'summary_tail': out_chk[-600:]}
+            bad_ax = [a for a in chk_axioms if a not in ('<none>',) and a.split(' ')[0] not in ALLOWED_AXIOMS_CHK]
+            if rc_chk != 0 or bad_ax:
+                b['ok'] = False
+                b['broken'].append({'file': 'coqchk', 'line': 0, 'statement': None, 'error': 'coqchk exit %d, axioms %s' % (rc_chk, bad_ax)})
     if changed: log('translator: regenerated', ', '.join(changed))
     cov['translator_regenerated'] = [r for r, _ in COMMON_GEN + list(getattr(plugin, 'GEN', []))]
     cov['translator_fallback'] = fallbacks
@@ -364,8 +397,14 @@ def run_check(pid, tier, seed):
     if hasattr(plugin, 'gen_cases'):
         cases += list(plugin.gen_cases(rng, tier))
     impl_out = []
-    for c in cases:
-        try: impl_out.append(plugin.impl(c))
+    case_timeout = int(getattr(plugin, 'CASE_TIMEOUT', os.environ.get('VERIF_CASE_TIMEOUT', '60')))
+    timeouts = []
+    for ci, c in enumerate(cases):
+        try: impl_out.append(call_with_timeout(plugin.impl, c, case_timeout))
+        except CaseTimeout:
+            impl_out.append('TIMEOUT'); timeouts.append(ci)
+            if len(timeouts) >= 3:      # do not sit through thousands of hanging cases
+                impl_out += ['NOT-RUN'] * (len(cases) - len(impl_out)); break
         except Exception as e:
             impl_out.append('HARNESS-ERROR:%s:%s' % (type(e).__name__, str(e)[:200]))
     model_out = None
@@ -385,6 +424,9 @@ def run_check(pid, tier, seed):
     oracle_viol = []
     for i, c in enumerate(cases):
         io = impl_out[i]
+        if io == 'NOT-RUN': continue
+        if io == 'TIMEOUT':
+            oracle_viol.append((i, 'the implementation did not return within %d s on this case' % case_timeout)); continue
         cat = plugin.classify(c, io) if hasattr(plugin, 'classify') else c.get('op', '?')
         cats[cat] = cats.get(cat, 0) + 1
         key = hashlib.sha1(json.dumps(c, sort_keys=True, default=repr).encode()).hexdigest()
@@ -410,12 +452,23 @@ def run_check(pid, tier, seed):
                 else:
                     cases.append(c); impl_out.append('(extra check %s)' % name)
                     oracle_viol.append((len(cases) - 1, msg))
-    cov['evaluations'] = len(cases) + extra_n
+    extra_corr_n = 0; extra_corr_bad = []
+    if hasattr(plugin, 'extra_corr'):
+        # further model-vs-implementation comparisons run by the plugin itself: (number compared, [disagreements])
+        try:
+            extra_corr_n, extra_corr_bad = plugin.extra_corr(rng, tier)
+        except Exception as e:
+            extra_corr_n, extra_corr_bad = 0, [{'error': 'extra_corr crashed: %r' % e}]
+        for d in extra_corr_bad[:5]:
+            log('correspondence (extra): model and implementation differ: %s' % short(d))
+    cov['extra_correspondence_compared'] = extra_corr_n
+    cov['extra_correspondence_disagreements'] = len(extra_corr_bad)
+    cov['evaluations'] = len(cases) + extra_n + extra_corr_n
     cov['distinct_nontrivial'] = len(distinct)
     cov['corpus_cases'] = n_corpus
     cov['rule'] = getattr(plugin, 'RULE', 'cases generated by tools/props/%s.py from one PRNG state (VERIF_SEED); distinct = distinct case JSON; non-trivial per plugin.trivial' % pid)
     cov['distribution'] = dict(sorted(cats.items()))
-    cov['traces_validated_against_impl'] = (n_modelled - len(diffs)) if model_out is not None else 0
+    cov['traces_validated_against_impl'] = ((n_modelled - len(diffs)) if model_out is not None else 0) + max(0, extra_corr_n - len(extra_corr_bad))
     cov['correspondence_disagreements'] = len(diffs)
     cov['samples'] = [{'case': jsonable(cases[i]), 'impl': impl_out[i], 'model': (model_out[i] if model_out is not None else None)}
                       for i in sorted(rng.sample(range(len(cases)), min(5, len(cases))))] if cases else []
@@ -427,7 +480,12 @@ def run_check(pid, tier, seed):
         log('property violated on the implementation: %s  case=%s' % (msg, short(cases[i])))
         violations.append((path, ''))
 
-    corr_broken = bool(diffs) or (exe is None and getattr(plugin, 'EXTRACT', None) is not None)
+    corr_broken = bool(diffs) or bool(extra_corr_bad) or (exe is None and getattr(plugin, 'EXTRACT', None) is not None)
+    if exe is not None and cases and n_modelled == 0:
+        # a driver exists but no case went through it: the correspondence did not run (plugin lost its encode?)
+        corr_broken = True
+        exerr = 'no generated case was run through the model driver (encode missing or returning None for every case)'
+        log('correspondence:', exerr)
     if diffs:
         for i in diffs[:5]:
             log('correspondence: model and implementation differ: case=%s impl=%r model=%r' % (short(cases[i]), impl_out[i][:200], (model_out[i] or '')[:200]))
@@ -481,7 +539,9 @@ def run_check(pid, tier, seed):
         for c in gen():
             tried += 1
             try:
-                msg = plugin.oracle(c, plugin.impl(c)) if hasattr(plugin, 'oracle') else None
+                msg = plugin.oracle(c, call_with_timeout(plugin.impl, c, case_timeout)) if hasattr(plugin, 'oracle') else None
+            except CaseTimeout:
+                msg = 'the implementation did not return within %d s on this case' % case_timeout
             except Exception as e:
                 msg = None
             if msg and not (hasattr(plugin, 'zone') and plugin.zone(c)):
@@ -489,7 +549,8 @@ def run_check(pid, tier, seed):
             if time.time() - t_s > (120 if tier == 'quick' else 900): break
         cov['search_cases_tried'] = tried
         what = {'obligations_broken': b['broken'], 'gate': gate,
-                'correspondence_broken': [{'case': jsonable(cases[i]), 'impl': impl_out[i], 'model': model_out[i]} for i in diffs[:5]] if diffs else ([exerr] if exerr else [])}
+                'correspondence_broken': ([{'case': jsonable(cases[i]), 'impl': impl_out[i], 'model': model_out[i]} for i in diffs[:5]] if diffs else ([exerr] if exerr else []))
+                                         + [jsonable(d) for d in extra_corr_bad[:5]]}
         if found:
             path = write_replay(pid, 'search', {'case': jsonable(found[0]), 'message': found[1], **what})
             log('search found a failing input: %s case=%s' % (found[1], short(found[0])))
@@ -510,7 +571,10 @@ def run_check(pid, tier, seed):
     ev['wall_s'] = round(time.time() - t0, 2)
     os.makedirs(os.path.join(ROOT, 'evidence'), exist_ok=True)
     json.dump(ev, open(os.path.join(ROOT, 'evidence', pid + '.json'), 'w'), indent=1, default=repr)
+    seen_v = set()
     for path, suffix in violations:
+        if path in seen_v: continue
+        seen_v.add(path)
         print('VIOLATION property=%s replay=%s%s' % (pid, path, suffix), flush=True)
     log('%s %s: obligations %d/%d, cases %d (model agreed on %d), known findings %s, %.1fs' % (
         pid, tier, cov['discharged'], cov['obligations'], cov['evaluations'], cov['traces_validated_against_impl'], reproduced, ev['wall_s']))
